@@ -34,6 +34,9 @@ HOF_SYNC = {
     'core::option::Option::inspect', 'core::result::Result::inspect', 'core::result::Result::inspect_err', 'core::option::Option::take_if',
     'alloc::vec::Vec::retain_mut', 'alloc::collections::vec_deque::VecDeque::retain_mut', 'core::slice::<impl [T]>::sort_by_key', 'core::slice::<impl [T]>::sort_by',
     'alloc::vec::Vec::extract_if', 'core::bool::<impl bool>::then', 'alloc::vec::Vec::dedup_by_key',
+    # thread-local access runs its closure before returning (the lazy initialiser too)
+    'std::thread::local::LocalKey::with', 'std::thread::local::LocalKey::try_with', 'std::sys::thread_local::native::lazy::Storage::get_or_init',
+    'std::sync::once::Once::call_once', 'std::sync::once_lock::OnceLock::get_or_init',
 }
 HOF_STORE = {
     'alloc::boxed::Box::new', 'alloc::sync::Arc::new', 'std::sync::poison::mutex::Mutex::new',
